@@ -136,15 +136,13 @@ theorem metricDecl_eq_print (name : Str) (unit : Option Str) (flag : Flag) (hf :
     | exact absurd rfl hf
     | simp [Emf.metricDecl, toEmfFlags, declJson, print, printMembers, jstr_Name, jstr_Unit, jstr_SR]
 
-/-- serde's `MetricDefinition` is the printed `declJson` when the unit is named -/
-theorem extraMetric_eq_print (d : Decl) (u : Str) (hu : d.unit = some u) :
+/-- serde's `MetricDefinition` is the printed `extraDeclJson` -/
+theorem extraMetric_eq_print (d : Decl) :
     Emf.extraMetricJson { name := d.name, unit := d.unit.getD (bytes! "None"), storage := if d.hires then some 1 else none }
-      = print (declJson d) := by
+      = print (extraDeclJson d) := by
   obtain ⟨n, un, hi⟩ := d
-  simp only at hu
-  subst hu
   cases hi <;>
-    simp [Emf.extraMetricJson, declJson, print, printMembers, jstr_Name, jstr_Unit, jstr_SR, natDigits, digitsAux]
+    simp [Emf.extraMetricJson, extraDeclJson, print, printMembers, jstr_Name, jstr_Unit, jstr_SR, natDigits, digitsAux]
 
 theorem printElems_map (f : JVal → List Nat) (g : JVal → List Nat) (l : List JVal) (h : ∀ x ∈ l, f x = g x) :
     sepBy [44] (l.map f) = sepBy [44] (l.map g) := by
@@ -170,17 +168,15 @@ theorem dimsJson_print (dims : List (List Str)) :
   simp [jarrStrings_eq_print]
 
 /-- serde's `MetricDirective` is the printed `extraDirectiveJson` -/
-theorem extraDirective_eq_print (d : Directive) (hd : d.metrics.all (fun m => m.unit.isSome) = true) :
+theorem extraDirective_eq_print (d : Directive) :
     Emf.extraDirectiveJson (toEmfExtra d) = print (extraDirectiveJson d) := by
-  have hm : sepBy [44] ((toEmfExtra d).metrics.map Emf.extraMetricJson) = printElems (d.metrics.map declJson) := by
+  have hm : sepBy [44] ((toEmfExtra d).metrics.map Emf.extraMetricJson) = printElems (d.metrics.map extraDeclJson) := by
     rw [printElems_eq_sepBy, List.map_map]
     simp only [toEmfExtra, List.map_map]
     congr 1
     apply List.map_congr_left
-    intro m hmem
-    have := List.all_eq_true.mp hd m hmem
-    obtain ⟨u, hu⟩ := Option.isSome_iff_exists.mp this
-    exact extraMetric_eq_print m u hu
+    intro m _
+    exact extraMetric_eq_print m
   simp only [Emf.extraDirectiveJson, hm]
   simp [extraDirectiveJson, toEmfExtra, print, printMembers, dimsJson, dimsJson_print, jstr_Dimensions, jstr_Metrics,
     jstr_Namespace]
